@@ -292,6 +292,12 @@ func main() {
 						if strings.Contains(respBody, "unable to detect sum type variant") {
 							attrs["refusal"] = "no-member-to-detect-the-variant-by"
 						}
+						if strings.Contains(respBody, "multiple oneOf matches") {
+							attrs["refusal"] = "several-variants-matched-by-member"
+						}
+						if vs := append(refsOf(e.Schema["oneOf"]), refsOf(e.Schema["anyOf"])...); len(vs) > 0 {
+							attrs["variants"] = strings.Join(vs, ",")
+						}
 						drv.Violation(attrs,
 							len(sj)+len(inst), kase{e.Kind, e.Schema, inst, fmt.Sprint("valid=", want), status, handled, respBody})
 					}
@@ -336,4 +342,18 @@ func main() {
 		_ = os.WriteFile(*pairsOut, b, 0o644)
 	}
 	drv.Flush()
+}
+
+// refsOf: names of the referenced variants of a sum, in order.
+func refsOf(x any) []string {
+	var out []string
+	l, _ := x.([]any)
+	for _, v := range l {
+		if m, ok := v.(map[string]any); ok {
+			if ref, ok := m["$ref"].(string); ok {
+				out = append(out, ref[strings.LastIndex(ref, "/")+1:])
+			}
+		}
+	}
+	return out
 }
